@@ -318,7 +318,8 @@ def run(run):
     for nn, ncol in ((4, 2), (6, 2), (5, 3)) if quick else ((4, 2), (6, 2), (5, 3), (8, 2), (12, 2), (9, 4)):
         # the second one: same geometry, another r0; the last two: very weak turbulence (pixel / r0 = 1e-5, 1e-6)
         for prm in (PARAMS[0], (PARAMS[0][0], PARAMS[0][1] * 2.5, PARAMS[0][2]), (0.5, 5.0e4, 20.0), (0.01, 1.0e4, 10.0),
-                    (1, 0.3, 20.0), (2, 0.5, 30.0)):                                   # ... and a pixel scale given as a Python int
+                    (1, 0.3, 20.0), (2, 0.5, 30.0),                                    # ... a pixel scale given as a Python int
+                    (0.5, 0.2, 1.5), (1.0, 0.3, 2.0)):                                  # ... and screens wider than the outer scale
             rho, res = c04.vk_stability(ips, nn, ncol, prm)
             if rho is None:
                 run.unrunnable.append(dict(stability=[nn, ncol], why="add_row does not draw its innovation inside the call"))
@@ -340,7 +341,8 @@ def run(run):
     # ---- a screen the caller was handed stays what it was ("nothing else changes"): keep every returned array WITHOUT copying it,
     #      step on, and compare with the snapshot taken when it was handed out
     n_held = 0
-    for variant, req, f in (("vk", 4, 1), ("fried", 4, 1), ("fried", 5, 2), ("vk", 7, 1)):
+    # (the last two: buffers of 2^18 elements and more)
+    for variant, req, f in (("vk", 4, 1), ("fried", 4, 1), ("fried", 5, 2), ("vk", 7, 1), ("vk", 512, 1), ("fried", 130, 4)):
         try:
             obj = build(ips, variant, req, f, PARAMS[0], 31 + run.seed % 1000)
         except Exception:  # noqa
